@@ -618,18 +618,22 @@ def _exchange_kind(g, before, after, seed, n_models):
     def with_sub(var, star):
         subs = [(n, s_) for n, s_ in var[4] if int(n) != name] + [(name, star)]
         return K.mkvar(var[1], subs)
-    new_star = {s_ for (v1, _), (v2, _) in zip(o1, o2) for n, s_ in v2[4]
-                if int(n) == name and not any(int(n1) == name for n1, _ in v1[4])}
-    if not new_star and gone[0][1] in ("m", "p"):
-        # no outcome descends from the exchanged condition: the subscript it WOULD have received carries the condition's value
-        new_star = {gone[0][1]}
-    if len(new_star) == 1:
-        st = next(iter(new_star))
+    # the new subscript carries the VALUE of the exchanged condition (since `fix:` 8a76512); the outcomes of `before` and `after`
+    # are matched by base variable and old subscripts, not by position (two outcomes may share their base variable)
+    def strip(var):
+        return C.enc(K.mkvar(var[1], [(n, s_) for n, s_ in var[4] if int(n) != name]))
+    old_keys = {C.enc(v1) for v1, _ in o1}
+    gained = [C.enc(v2) not in old_keys and any(int(n) == name for n, _ in v2[4]) and
+              any(strip(v2) == C.enc(v1) for v1, _ in o1) for v2, _ in o2]
+    stars = {s_ for (v2, _), g_ in zip(o2, gained) if g_ for n, s_ in v2[4] if int(n) == name}
+    if gone[0][1] in ("m", "p"):
+        stars.add(gone[0][1])
+    for st in sorted(stars, key=lambda x: x != gone[0][1]):
         flip = "m" if st == "p" else "p"
-        o2f = [[with_sub(v2, flip), val] if any(int(n) == name for n, _ in v2[4]) and
-               not any(int(n1) == name for n1, _ in v1[4]) else [v2, val] for (v1, _), (v2, val) in zip(o1, o2)]
-        if len({C.enc(v) for v, _ in o2f}) == len(o2f) and not _ratio_differs(g, before, (o2f, c2), seed, n_models):
-            return "exchange:polarity"
+        if any(gained):
+            o2f = [[with_sub(v2, flip), val] if g_ else [v2, val] for (v2, val), g_ in zip(o2, gained)]
+            if len({C.enc(v) for v, _ in o2f}) == len(o2f) and not _ratio_differs(g, before, (o2f, c2), seed, n_models):
+                return "exchange:polarity"
         # (a remaining condition that already carries a subscript for the exchanged variable lives in a world where that
         # variable is set: it keeps it)
         c2s = [[with_sub(v, st), val] if int(v[1]) != name and not any(int(n_) == name for n_, _ in v[4]) else [v, val]
